@@ -24,7 +24,7 @@ RULE = ('Seeded histories of 2..8 operations on a directory with <= 3 paths: put
 ASSUMPTIONS = ['fault-free by statement: no crash / truncation is injected here', 'SED values are compared within 1e-12 relative (SED.read multiplies and divides by nu even when the unit is unchanged); cube and convolved files exactly',
                'for an SED written without apertures only the single row of values is required (apertures need not come back as None)']
 PROBES = ['overwrite_other_shape', 'sed_asc_written', 'sed_desc_written', 'cube_no_unc', 'cube_no_apertures', 'cube_memmap_read', 'cube_get_sed',
-          'read_order_wav', 'read_order_nu', 'unit_erg', 'unit_jy', 'conv_no_apertures', 'stale_memmap_reader', 'sed_no_apertures', 'gz_path', 'gz_sibling_present', 'read_in_other_unit', 'uncertainties_in_other_unit', 'cube_get_sed_twice', 'name_at_other_position_in_earlier_cube', 'apertures_not_increasing', 'axis_given_as_frequencies', 'axis_in_other_length_unit']
+          'read_order_wav', 'read_order_nu', 'unit_erg', 'unit_jy', 'conv_no_apertures', 'stale_memmap_reader', 'sed_no_apertures', 'gz_path', 'gz_sibling_present', 'read_in_other_unit', 'uncertainties_in_other_unit', 'cube_get_sed_twice', 'name_at_other_position_in_earlier_cube', 'apertures_not_increasing', 'axis_given_as_frequencies', 'axis_in_other_length_unit', 'same_object_written_twice']
 
 
 def budgets(tier):
@@ -62,7 +62,13 @@ def generate(rng, tier, idx):
             kind = rng.choice(['sed', 'cube', 'cube', 'conv'])
             if p.endswith('.gz') or (p + '.gz') in paths:
                 kind = rng.choice(['sed', 'sed', 'conv'])     # compressed files cannot be memory-mapped: keep cubes uncompressed
-            steps.append({'op': 'put', 'path': p, 'obj': _gen_obj(rng, kind)})
+            st_ = {'op': 'put', 'path': p, 'obj': _gen_obj(rng, kind)}
+            # the SAME object is sometimes written a second time, to another path (a backup copy)
+            others = [q for q in paths if q != p and q.endswith('.gz') == p.endswith('.gz') and not (kind == 'cube' and ((q + '.gz') in paths))]
+            if others and rng.random() < 0.25:
+                st_['also_to'] = rng.choice(others)
+                stored[st_['also_to']] = kind
+            steps.append(st_)
             stored[p] = kind
         else:
             p = rng.choice(sorted(stored))
@@ -79,6 +85,8 @@ def repair(sc):
     for st in sc['steps']:
         if st['op'] == 'put':
             stored.add(st['path'])
+            if st.get('also_to'):
+                stored.add(st['also_to'])
         elif st['op'] == 'get' and st['path'] not in stored:
             return None
     return sc
@@ -137,7 +145,7 @@ def _unit(s):
     return {'mJy': u.mJy, 'Jy': u.Jy, 'erg / (cm2 s)': u.erg / u.cm ** 2 / u.s, 'erg / s': u.erg / u.s}[s]
 
 
-def _put(path, R, overwrite):
+def _put(path, R, overwrite, path2=None):
     from astropy import units as u
     from sedfitter.sed import SED, SEDCube
     from sedfitter.convolved_fluxes import ConvolvedFluxes
@@ -159,6 +167,8 @@ def _put(path, R, overwrite):
         s.flux = R.val[0] * unit
         s.error = R.unc[0] * _unit(o.get('unc_unit', o['unit']))
         s.write(path, overwrite=overwrite)
+        if path2:
+            s.write(path2, overwrite=True)
     elif o['kind'] == 'cube':
         c = SEDCube()
         c.names = np.array(R.names)
@@ -175,10 +185,14 @@ def _put(path, R, overwrite):
         if R.unc is not None:
             c.unc = R.unc * _unit(o.get('unc_unit', o['unit']))
         c.write(path, overwrite=overwrite)
+        if path2:
+            c.write(path2, overwrite=True)
     else:
         cf = ConvolvedFluxes(wavelength=float(R.wav[0]) * u.micron, model_names=np.array(R.names), apertures=(R.aps * u.au if R.aps is not None else None),
                              flux=R.val[:, :, 0] * u.mJy, error=R.unc[:, :, 0] * u.mJy)
         cf.write(path, overwrite=overwrite)
+        if path2:
+            cf.write(path2, overwrite=True)
 
 
 def _match(w, ref_wav, tol):
@@ -236,13 +250,16 @@ def _execute(sc, sim, out):
             over = st['path'] in store
             if over and (store[st['path']].o['kind'] != o['kind'] or store[st['path']].val.shape != R.val.shape):
                 out.probe('overwrite_other_shape')
-            r = pipe.call(_put, p, R, over)
+            r = pipe.call(_put, p, R, over, sim.path(st['also_to']) if st.get('also_to') else None)
             what = 'put %s (%s, %d models, %s apertures, %d wavelengths %s, unit %s%s)' % (st['path'], o['kind'], o['n_models'], o['n_ap'] if o['has_ap'] else 'no',
                                                                                             o['n_wav'], 'ascending' if o['asc'] else 'descending', o['unit'], '' if o['has_unc'] else ', no uncertainties')
             if r[0] != 'ok':
                 out.violate('write-failed', '%s raised %s: %s' % (what, pipe.exc_name(r), r[1]), key='%s/%s@%s' % (o['kind'], pipe.exc_name(r), pipe.where(r[1]) if r[0] == 'exc' else ''))
                 break
             store[st['path']] = R
+            if st.get('also_to'):
+                store[st['also_to']] = R
+                out.probe('same_object_written_twice')
             if o.get('axis') in ('Hz', 'GHz', 'THz') and o['kind'] == 'cube':
                 out.probe('axis_given_as_frequencies')
             if o.get('axis') in ('Angstrom', 'm'):
